@@ -7,6 +7,10 @@ import MoPepGen.Lemmas.TvgLoop
 import MoPepGen.Lemmas.TvgLang
 import MoPepGen.Lemmas.TvgLive
 import MoPepGen.Lemmas.TvgPool
+import MoPepGen.Lemmas.Translate
+import MoPepGen.Lemmas.TranslateSplit
+import MoPepGen.Lemmas.TranslateFuel
+import MoPepGen.Lemmas.TranslateSec
 import MoPepGen.Props.C10
 /-!
 # C01 — completeness of callVariant  (PARTIAL: of the graph algorithm only the first stage,
@@ -1206,5 +1210,484 @@ example : SplicePre tvgS0 5 4 ∧
     ∃ s', Tvg.splice tvgS0 5 4 .reference = .ok (s', 5, 7) :=
   ⟨⟨1, 1, 14, ⟨_, rfl⟩, by decide, by decide⟩, _, rfl⟩
 end TvgNonVacuity
+
+/-! ## Layer G — function-level model of `ThreeFrameTVG.translate` (third stage)
+
+`Model/Translate.lean` models `ThreeFrameTVG.translate` function by function: the `while queue`
+search with `visited` (one `PVGNode` per reached TVG node, named `pix o = o + 2`; 0 = root, 1 = the
+shared stop node), `TVGNode.translate` (sequence, matched locations and variant locations in
+amino-acid coordinates), `PVGNode.fix_selenocysteines` (the two-cursor loop with its start / end
+offset guards and the rebuilding loop), the empty-leaf cases (`*` / `truncated`),
+`PeptideVariantGraph.add_stop`, `TVGNode.get_reference_next` for `pgraph.reading_frames`, and the
+final loop that splits a fake stop off a node holding an annotated CDS end that is not a stop codon
+(`PVGNode.split_node`).  Tie: internal streams `G-translate` (every stage-dumping case of C01: the
+graph the real `translate` found vs the graph it returned) and `G-translate-direct`.
+
+Below, for a LINEAR transcript (`isCirc = false`):
+ (a) structure — the maximal paths of the returned graph from the image of a frame's start node
+     are exactly the images of the maximal paths of the input graph (`translate_paths`), the
+     successors of the root are the images of the frames' start nodes (`translate_root_successors`),
+     the last node of every path — and no other — is followed by the stop node
+     (`translate_stop_after_every_branch`);
+ (b) language — along such a path the returned graph spells, node by node, `nodeProt` of the input
+     nodes (`translate_path_sequence`); if every node with a successor is a whole number of codons
+     (`innerCodons`, what CP2 asserts) and the collected Sec positions are ascending in every node
+     (`secAscending`), that is the translation of the path's DNA read with `U` at exactly the
+     positions `fix_selenocysteines` collected, plus `*` for an empty last node
+     (`translate_path_sequence_sec`, `translate_language_eq`); which positions are collected is
+     `sec_hit_sound` (only if) and `sec_hits_exact_of_sorted` (iff, for sorted single-frame
+     locations / records); without annotated Sec codons CP2 for the input graph gives CP3 for the
+     returned graph (`translate_cp3_of_cp2`).
+ (c) the fake stop — (a) and (b) above are stated for graphs in which no fake stop is split off
+     (`noTerminal g ∨ ¬ hasKnownOrf`, the case of an annotation whose CDS end is a stop codon);
+     `translate_language_fake_stop` gives the language for EVERY linear transcript with a known
+     ORF: the node-wise translations of the maximal paths plus, for every node the final loop cuts
+     (`translate_terminal_site_spec`) and every walk that reaches it, the protein up to the
+     annotated CDS end followed by `*` (by `expand_language`, the effect of cutting a node on a
+     Layer G graph).
+`translate_fuel_stable`: the fuel of the modelled loop is no restriction. -/
+
+open MoPepGen.Translate MoPepGen.Graph in
+/-- (a) the successors of the root of the returned graph are exactly the images of the start
+nodes of the three frames (the successors of the frame roots `self.reading_frames`) -/
+theorem translate_root_successors (g : TGraphIn) (pg : PGraph) (h : translateGraph g = .ok pg)
+    (hnt : noTerminal g = true ∨ g.hasKnownOrf = false) (q : Nat) :
+    q ∈ succs pg.toGraph rootIx ↔ ∃ d ∈ g.frames, ∃ o ∈ succs g.toGraph d, q = pix o := by
+  obtain ⟨st, hF, hG⟩ := translateGraph_final h hnt
+  rw [hG]; exact hF.root_succs q
+
+open MoPepGen.Translate MoPepGen.Graph in
+/-- (a) structure: from the image of a frame's start node `o`, the maximal paths of the returned
+graph (the shared stop node is the end sentinel, not part of a path) are exactly the node-wise
+images of the maximal paths of the input graph from `o` -/
+theorem translate_paths (g : TGraphIn) (pg : PGraph) (h : translateGraph g = .ok pg)
+    (hnt : noTerminal g = true ∨ g.hasKnownOrf = false) (d o : Nat) (hd : d ∈ g.frames)
+    (ho : o ∈ succs g.toGraph d) (q : List Nat) :
+    MaxPath pg.toGraph (pix o) q ↔ ∃ p, MaxPath g.toGraph o p ∧ q = p.map pix := by
+  obtain ⟨st, hF, hG⟩ := translateGraph_final h hnt
+  rw [hG]
+  have hp := hF.start_present hd ho
+  constructor
+  · intro hm; exact hF.tvg_of_path hm o rfl hp
+  · rintro ⟨p, hm, rfl⟩; exact hF.path_of_tvg hm hp
+
+open MoPepGen.Translate MoPepGen.Graph in
+/-- (a) `add_stop`: along the image of a maximal path the LAST node — and only a node without
+out-edges — has the shared stop node as its one and only successor in the returned graph
+(`*` is added at the end of every branch); the stop node is the end sentinel of Layer G and not
+part of any path -/
+theorem translate_stop_after_every_branch (g : TGraphIn) (pg : PGraph) (h : translateGraph g = .ok pg)
+    (hnt : noTerminal g = true ∨ g.hasKnownOrf = false) (d o : Nat) (hd : d ∈ g.frames)
+    (ho : o ∈ succs g.toGraph d) (p : List Nat) (hm : MaxPath g.toGraph o p) (l : Nat)
+    (hl : p.getLast? = some l) (q : Nat) :
+    q ∈ ((pg.nodes[pix l]?.map (·.out)).getD []) ↔ q = stopIx := by
+  obtain ⟨st, hst, hn⟩ := translateGraph_nodes h hnt
+  have hF := translateCore_final hst
+  obtain ⟨hleaf, hmem⟩ := maxPath_last_leaf hm l hl
+  rw [hn]
+  exact hF.leaf_out (hF.path_present hm (hF.start_present hd ho) l hmem) hleaf q
+
+open MoPepGen.Translate MoPepGen.Graph in
+/-- (b) node by node: along the image of a maximal path the returned graph spells `nodeProt` of
+the input nodes — the translation of the node's DNA (a last node cut to whole codons), rebuilt
+around the positions `fix_selenocysteines` collected (`rebuildSec`, the loop as written), `*`
+for an empty node without successor unless trailing nodes are clipped.  No assumption on codons
+or on the order of the Sec positions. -/
+theorem translate_path_sequence (g : TGraphIn) (pg : PGraph) (h : translateGraph g = .ok pg)
+    (hc : g.isCirc = false) (hnt : noTerminal g = true ∨ g.hasKnownOrf = false) (d o : Nat)
+    (hd : d ∈ g.frames) (ho : o ∈ succs g.toGraph d) (p : List Nat) (hm : MaxPath g.toGraph o p) :
+    pathSeq pg.toGraph (p.map pix) = p.flatMap (protOf g) := by
+  obtain ⟨st, hF, hG⟩ := translateGraph_final h hnt
+  rw [hG]; exact hF.pathSeq_eq hc hm (hF.start_present hd ho)
+
+open MoPepGen.Translate MoPepGen.Graph in
+/-- (b) with the Sec rule: if the path is codon aligned and the collected positions are strictly
+ascending in every node, the image path spells the translation of the path's DNA with `U` at
+exactly the collected positions (`pathHits`: the positions of each node shifted by the length of
+the protein in front of it), followed by `*` when the last node translates to nothing and
+trailing nodes are not clipped -/
+theorem translate_path_sequence_sec (g : TGraphIn) (pg : PGraph) (h : translateGraph g = .ok pg)
+    (hc : g.isCirc = false) (hnt : noTerminal g = true ∨ g.hasKnownOrf = false)
+    (hasc : secAscending g = true) (d o : Nat) (hd : d ∈ g.frames) (ho : o ∈ succs g.toGraph d)
+    (p : List Nat) (hm : MaxPath g.toGraph o p) (hal : codonAligned g.toGraph p = true) :
+    pathSeq pg.toGraph (p.map pix) =
+      secRead (pathHits g p) 0 (translate (pathSeq g.toGraph p)) ++ endStar g p := by
+  obtain ⟨st, hF, hG⟩ := translateGraph_final h hnt
+  have hp := hF.start_present hd ho
+  rw [hG, hF.pathSeq_eq hc hm hp, ← translatePath_eq _ _ hal]
+  exact path_prot hm fun o' ho' => hF.hitsOk hc hasc (hF.path_present hm hp o' ho')
+
+open MoPepGen.Translate MoPepGen.Graph in
+/-- (b) the language theorem: for an input graph in which every node with a successor is a whole
+number of codons, the protein language of the returned graph from the image of a frame's start
+node is exactly the set of translations of the DNA language of the input graph from that node,
+read with `U` at the collected Sec positions (and `*` for an empty last node) -/
+theorem translate_language_eq (g : TGraphIn) (pg : PGraph) (h : translateGraph g = .ok pg)
+    (hc : g.isCirc = false) (hnt : noTerminal g = true ∨ g.hasKnownOrf = false)
+    (hic : innerCodons g = true) (hasc : secAscending g = true) (d o : Nat) (hd : d ∈ g.frames)
+    (ho : o ∈ succs g.toGraph d) (w : List Char) :
+    (∃ q, MaxPath pg.toGraph (pix o) q ∧ pathSeq pg.toGraph q = w) ↔
+      ∃ p, MaxPath g.toGraph o p ∧
+        w = secRead (pathHits g p) 0 (translate (pathSeq g.toGraph p)) ++ endStar g p := by
+  constructor
+  · rintro ⟨q, hq, rfl⟩
+    obtain ⟨p, hm, rfl⟩ := (translate_paths g pg h hnt d o hd ho q).mp hq
+    exact ⟨p, hm, translate_path_sequence_sec g pg h hc hnt hasc d o hd ho p hm
+      (codonAligned_of_innerCodons hic hm)⟩
+  · rintro ⟨p, hm, rfl⟩
+    exact ⟨p.map pix, (translate_paths g pg h hnt d o hd ho _).mpr ⟨p, hm, rfl⟩,
+      translate_path_sequence_sec g pg h hc hnt hasc d o hd ho p hm
+        (codonAligned_of_innerCodons hic hm)⟩
+
+open MoPepGen.Translate MoPepGen.Graph in
+/-- CP2 ⇒ CP3 for the model of this stage, transcripts without annotated Sec codons: if the DNA
+language of the input graph from the frame's start node is the language CP2 demands
+(`tvgLang t vs f`) and every node with a successor is a whole number of codons, then the protein
+language of the returned graph, trailing stop symbols removed, is the language CP3 demands
+(`protLang t vs f`, likewise stripped — the comparison `Driver/G.lean` makes for stage `pvg1`). -/
+theorem translate_cp3_of_cp2 (g : TGraphIn) (pg : PGraph) (h : translateGraph g = .ok pg)
+    (hc : g.isCirc = false) (hnt : noTerminal g = true ∨ g.hasKnownOrf = false)
+    (hic : innerCodons g = true) (hs : g.sect = []) (d o : Nat) (hd : d ∈ g.frames)
+    (ho : o ∈ succs g.toGraph d) (t : TxIn) (vs : List Var) (f : Nat) (hts : t.sec = [])
+    (hcp2 : ∀ s, (∃ p, MaxPath g.toGraph o p ∧ pathSeq g.toGraph p = s) ↔
+      s ∈ (tvgLang t vs f).map (·.1)) (w : List Char) :
+    (∃ q, MaxPath pg.toGraph (pix o) q ∧ stripEnd (pathSeq pg.toGraph q) = w) ↔
+      w ∈ (protLang t vs f).map stripEnd := by
+  have hhits : ∀ n : DNode, secHits g n = [] := fun n => by simp [secHits, hs, secLoop_nil_right]
+  have hasc : secAscending g = true := by
+    simp [secAscending, hhits, ascB]
+  have hph : ∀ p : List Nat, pathHits g p = [] := by
+    intro p
+    induction p with
+    | nil => rfl
+    | cons a as ih =>
+      simp only [pathHits, ih, List.map_nil, List.append_nil]
+      cases g.nodes[a]? <;> simp [hhits]
+  have hstrip : ∀ p : List Nat, stripEnd (translate (pathSeq g.toGraph p) ++ endStar g p) =
+      stripEnd (translate (pathSeq g.toGraph p)) := by
+    intro p
+    unfold endStar
+    split
+    · split
+      · exact stripEnd_append_star _
+      · simp
+    · simp
+  have hprot : (protLang t vs f).map stripEnd =
+      ((tvgLang t vs f).map (·.1)).map fun s => stripEnd (translate s) := by
+    simp only [protLang, tvgLang, List.map_map]
+    apply List.map_congr_left
+    intro hp _
+    simp [hts, secAfter, fullTranslation_nil_sec]
+  rw [hprot]
+  constructor
+  · rintro ⟨q, hq, rfl⟩
+    obtain ⟨p, hm, hw⟩ := (translate_language_eq g pg h hc hnt hic hasc d o hd ho _).mp ⟨q, hq, rfl⟩
+    rw [hw, hph, secRead_nil, hstrip]
+    exact List.mem_map.mpr ⟨_, (hcp2 _).mp ⟨p, hm, rfl⟩, rfl⟩
+  · intro hw
+    obtain ⟨s, hs', rfl⟩ := List.mem_map.mp hw
+    obtain ⟨p, hm, rfl⟩ := (hcp2 s).mpr hs'
+    obtain ⟨q, hq, hqs⟩ := (translate_language_eq g pg h hc hnt hic hasc d o hd ho _).mpr ⟨p, hm, rfl⟩
+    refine ⟨q, hq, ?_⟩
+    rw [hqs, hph, secRead_nil, hstrip]
+
+open MoPepGen.Translate MoPepGen.Graph in
+/-- the same for a whole reading frame, as `Driver/G.lean` evaluates the checkpoints (all paths
+from ALL successors of the frame root `d`): CP2's language predicate for the input graph gives
+CP3's for the returned graph -/
+theorem translate_cp3_of_cp2_frame (g : TGraphIn) (pg : PGraph) (h : translateGraph g = .ok pg)
+    (hc : g.isCirc = false) (hnt : noTerminal g = true ∨ g.hasKnownOrf = false)
+    (hic : innerCodons g = true) (hs : g.sect = []) (d : Nat) (hd : d ∈ g.frames)
+    (t : TxIn) (vs : List Var) (f : Nat) (hts : t.sec = [])
+    (hcp2 : ∀ s, (∃ o ∈ succs g.toGraph d, ∃ p, MaxPath g.toGraph o p ∧ pathSeq g.toGraph p = s) ↔
+      s ∈ (tvgLang t vs f).map (·.1)) (w : List Char) :
+    (∃ o ∈ succs g.toGraph d, ∃ q, MaxPath pg.toGraph (pix o) q ∧ stripEnd (pathSeq pg.toGraph q) = w) ↔
+      w ∈ (protLang t vs f).map stripEnd := by
+  have hhits : ∀ n : DNode, secHits g n = [] := fun n => by simp [secHits, hs, secLoop_nil_right]
+  have hasc : secAscending g = true := by
+    simp [secAscending, hhits, ascB]
+  have hph : ∀ p : List Nat, pathHits g p = [] := by
+    intro p
+    induction p with
+    | nil => rfl
+    | cons a as ih =>
+      simp only [pathHits, ih, List.map_nil, List.append_nil]
+      cases g.nodes[a]? <;> simp [hhits]
+  have hstrip : ∀ p : List Nat, stripEnd (translate (pathSeq g.toGraph p) ++ endStar g p) =
+      stripEnd (translate (pathSeq g.toGraph p)) := by
+    intro p
+    unfold endStar
+    split
+    · split
+      · exact stripEnd_append_star _
+      · simp
+    · simp
+  have hprot : (protLang t vs f).map stripEnd =
+      ((tvgLang t vs f).map (·.1)).map fun s => stripEnd (translate s) := by
+    simp only [protLang, tvgLang, List.map_map]
+    apply List.map_congr_left
+    intro hp _
+    simp [hts, secAfter, fullTranslation_nil_sec]
+  rw [hprot]
+  constructor
+  · rintro ⟨o, ho, q, hq, rfl⟩
+    obtain ⟨p, hm, hw⟩ := (translate_language_eq g pg h hc hnt hic hasc d o hd ho _).mp ⟨q, hq, rfl⟩
+    rw [hw, hph, secRead_nil, hstrip]
+    exact List.mem_map.mpr ⟨_, (hcp2 _).mp ⟨o, ho, p, hm, rfl⟩, rfl⟩
+  · intro hw
+    obtain ⟨s, hs', rfl⟩ := List.mem_map.mp hw
+    obtain ⟨o, ho, p, hm, rfl⟩ := (hcp2 s).mpr hs'
+    obtain ⟨q, hq, hqs⟩ := (translate_language_eq g pg h hc hnt hic hasc d o hd ho _).mpr ⟨p, hm, rfl⟩
+    refine ⟨o, ho, q, hq, ?_⟩
+    rw [hqs, hph, secRead_nil, hstrip]
+
+open MoPepGen.Translate MoPepGen.Graph in
+/-- the Sec rule, exactly as `fix_selenocysteines` implements it (soundness): position `k` of the
+protein of the node made from `n` is rewritten to `U` only if some matched location `l` of the node
+points into the level-0 graph, is not empty in amino-acid coordinates, carries the frame
+`s.start % 3` of an annotated Sec record `s`, and holds `s` inside its window of WHOLE codons
+(`codonWindow`: the start / end offset guards); `k` is the node's codon at that reference
+position.  Variants never enter: a codon touched by a variant has no matched location. -/
+theorem sec_hit_sound (g : TGraphIn) (n : DNode) (k : Nat) (h : k ∈ secHits g n) :
+    ∃ l ∈ n.locs, ∃ s ∈ g.sect, l.lvl0 = true ∧ l.qRf = s.1 % 3 ∧ l.qStart / 3 ≠ ceilDiv3 l.qEnd ∧
+      l.codonWindow.1 < l.codonWindow.2 ∧ l.codonWindow.1 ≤ (s.1 : Int) ∧ (s.2 : Int) ≤ l.codonWindow.2 ∧
+      k = l.qStart / 3 + (Int.tdiv ((s.1 : Int) - l.codonStart) 3).toNat :=
+  mem_secHits h
+
+open MoPepGen.Translate MoPepGen.Graph in
+/-- a successful `mkNode` carries exactly these positions as `selenocysteines`, all of them inside
+the node's protein -/
+theorem sec_hits_recorded (g : TGraphIn) (n : DNode) (pn : PNode) (hc : g.isCirc = false)
+    (h : mkNode g n = .ok pn) :
+    pn.secs = secHits g n ∧ ∀ k ∈ secHits g n, k < (translate n.seq).length :=
+  (mkNode_seq hc h).2
+
+open MoPepGen.Translate MoPepGen.Graph in
+/-- which nodes the final loop of `translate` cuts: `IsTerminal g ot k` says the annotated CDS
+end `e ≠ 0` is found by `get_query_index` at the codon boundary `3 k > 0` of the level-0 node `ot`,
+at least one codon before the node's end, the node's protein does not read `*` at `k`, and no
+variant of the node covers the DNA index `3 k` in PROTEIN coordinates (as the code tests it) -/
+theorem translate_terminal_site_spec (g : TGraphIn) (ot k : Nat) (h : IsTerminal g ot k) :
+    ∃ dn pn e c, g.nodes[ot]? = some dn ∧ mkNode g dn = .ok pn ∧ orfEndOf g dn = some e ∧ e ≠ 0 ∧
+      dn.level = 0 ∧ queryIndex dn.locs e = some (3 * k) ∧ 0 < k ∧ 3 * k + 3 ≤ dn.seq.length ∧
+      pn.seq[k]? = some c ∧ c ≠ '*' ∧
+      (pn.vars.any fun v => v.start ≤ 3 * k && 3 * k < v.stop) = false := by
+  obtain ⟨dn, pn, h1, h2, h3⟩ := h
+  obtain ⟨e, q, c, a1, a2, a3, a4, a5, a6, a7, a8, a9, a10⟩ := terminalSite_some h3
+  subst a7
+  exact ⟨dn, pn, e, c, h1, h2, a1, a2, a3, a4, by omega, a6, a8, a9, a10⟩
+
+open MoPepGen.Translate MoPepGen.Graph in
+/-- the language of the returned graph WITH the fake stops (linear transcript, known ORF; no
+condition on `terminal_nodes`): from the image of a frame's start node `o` the maximal paths of
+the returned graph spell exactly
+ (i) the node-wise translations (`protOf`) of the maximal paths of the input graph from `o`, and
+ (ii) for every node `ot` the final loop cuts at `k` and every walk `p` of the input graph from
+      `o` that reaches `ot`: the translations along `p`, the first `k` residues of `ot`, and `*`. -/
+theorem translate_language_fake_stop (g : TGraphIn) (pg : PGraph) (h : translateGraph g = .ok pg)
+    (hc : g.isCirc = false) (hko : g.hasKnownOrf = true) (d o : Nat) (hd : d ∈ g.frames)
+    (ho : o ∈ succs g.toGraph d) (w : List Char) :
+    (∃ q, MaxPath pg.toGraph (pix o) q ∧ pathSeq pg.toGraph q = w) ↔
+      (∃ p, MaxPath g.toGraph o p ∧ w = p.flatMap (protOf g)) ∨
+      (∃ ot k p, IsTerminal g ot k ∧ NWalk g.toGraph ot o p ∧
+        w = p.flatMap (protOf g) ++ (protOf g ot).take k ++ ['*']) :=
+  translateGraph_language_fake_stop h hc hko hd ho w
+
+open MoPepGen.Graph in
+/-- what splitting a node does to a Layer G graph in general (`Expand`: node `t` keeps the part
+`a` of its sequence, a new node gets the rest and the successors, a new leaf `x` hangs on `t`):
+from every old node the language is the old one plus, for every walk reaching `t`, the sequence
+up to `t` followed by `a ++ x` -/
+theorem expand_language (G G' : Graph) (t : Nat) (a b x : List Char) (h : Expand G G' t a b x)
+    (j : Nat) (hj : j < G.size) (w : List Char) :
+    Acc G' j w ↔ Acc G j w ∨ ∃ u, Reach G t j u ∧ w = u ++ a ++ x :=
+  h.language hj w
+
+open MoPepGen.Translate MoPepGen.Graph in
+/-- the Sec rule, both directions, for the inputs the two-cursor loop is written for
+(`SecSorted f`: the node's matched locations all usable and in one frame `f`, their whole-codon
+windows ascending without overlap; the Sec records in frame `f`, non-empty, ascending without
+overlap): the positions rewritten to `U` are EXACTLY the codons of the node that a matched
+location maps onto an annotated Sec codon lying inside the location's whole-codon window.
+(Without `SecSorted` only `sec_hit_sound` holds: the cursors may run past a pair.) -/
+theorem sec_hits_exact_of_sorted (g : TGraphIn) (n : DNode) (f : Nat)
+    (hS : SecSorted f (n.locs.map aaLoc) g.sect) (k : Nat) :
+    k ∈ secHits g n ↔ ∃ l ∈ n.locs, ∃ s ∈ g.sect, l.codonWindow.1 ≤ (s.1 : Int) ∧
+      (s.2 : Int) ≤ l.codonWindow.2 ∧
+      k = l.qStart / 3 + (Int.tdiv ((s.1 : Int) - l.codonStart) 3).toNat :=
+  mem_secHits_iff_of_sorted hS k
+
+open MoPepGen.Translate in
+/-- the fuel of the modelled `while queue` loop is no restriction: every `queue.pop()` lowers
+(number of TVG nodes without a `PVGNode`) + (length of the queue), so the amount `translateCore`
+hands to the search is enough — any larger amount gives the same result -/
+theorem translate_fuel_stable (g : TGraphIn) (k : Nat) :
+    bfs g (g.nodes.size + g.frames.length + 1 + k) (initSt g) =
+      bfs g (g.nodes.size + g.frames.length + 1) (initSt g) :=
+  translateCore_fuel_stable g k
+
+namespace TranslateNonVacuity
+open MoPepGen.Translate MoPepGen.Graph
+
+/-! non-vacuity: the graph the real `fit_into_codons` leaves for the transcript `ATGTGAGCCTAAGG`
+(known ORF `[0, 9)`, the codon `TGA` at 3 annotated as Sec) with the SNV `C→T` at 7 — a dump of the
+`G-translate-direct` stream.  Node 0 is the root, 1–3 the frame roots, 4 = `ATGTGA`, 7 / 8 the
+reference / variant codon, 9 = `TAAGG`; 5 and 6 are the other two frames. -/
+/-- example input (not part of any statement) -/
+def tIn : TGraphIn :=
+  { nodes := #[
+      { seq := [], isNull := true, out := [(2, .reference), (3, .reference), (1, .reference)], rf := 3 },
+      { seq := [], isNull := true, out := [(4, .reference)], rf := 0 },
+      { seq := [], isNull := true, out := [(5, .reference)], rf := 1 },
+      { seq := [], isNull := true, out := [(6, .reference)], rf := 2 },
+      { seq := "ATGTGA".toList, out := [(7, .reference), (8, .variantStart)], rf := 0,
+        locs := [{ qStart := 0, qEnd := 6, qRf := 0, rStart := 0, rEnd := 6 }] },
+      { seq := "TGTGAGCCTAAGG".toList, out := [], rf := 1,
+        locs := [{ qStart := 0, qEnd := 13, qRf := 1, rStart := 1, rEnd := 14 }] },
+      { seq := "GTGAGCCTAAGG".toList, out := [], rf := 2,
+        locs := [{ qStart := 0, qEnd := 12, qRf := 2, rStart := 2, rEnd := 14 }] },
+      { seq := "GCC".toList, out := [(9, .reference)], rf := 0,
+        locs := [{ qStart := 0, qEnd := 3, qRf := 0, rStart := 6, rEnd := 9 }] },
+      { seq := "GTC".toList, out := [(9, .variantEnd)], rf := 0,
+        vars := [{ ids := [0], start := 1, stop := 2 }],
+        locs := [{ qStart := 0, qEnd := 1, qRf := 0, rStart := 6, rEnd := 7 },
+                 { qStart := 2, qEnd := 3, qRf := 0, rStart := 8, rEnd := 9 }] },
+      { seq := "TAAGG".toList, out := [], rf := 0,
+        locs := [{ qStart := 0, qEnd := 5, qRf := 0, rStart := 9, rEnd := 14 }] }],
+    frames := [1, 2, 3], hasKnownOrf := true, orf := some (0, 9), sect := [(3, 6)] }
+
+/-- the hypotheses of the theorems above hold for it -/
+example : linearInput tIn = true ∧ noTerminal tIn = true ∧ innerCodons tIn = true ∧
+    secAscending tIn = true := by decide +kernel
+
+/-- what `translateGraph` returns (as the real `translate` does): `MU` for node 4 — the annotated
+`TGA` reads `U` —, `A` / `V` for the two codons, `*` for the last node, and the other two frames -/
+example : ((translateGraph tIn).toOption.map fun pg =>
+      (pg.nodes.toList.map fun n => (String.ofList n.seq, n.out, n.secs), pg.frames)) =
+    some ([("", [8, 7, 6], []), ("*", [], []), ("", [], []), ("", [], []), ("", [], []), ("", [], []),
+           ("MU", [9, 10], [1]), ("CEPK", [1], []), ("VSLR", [1], []), ("A", [11], []),
+           ("V", [11], []), ("*", [1], [])], [some 6, some 7, some 8]) := by decide +kernel
+
+/-- the two maximal paths of frame 0 of the input and the language theorem's right-hand side -/
+example : paths tIn.toGraph 4 = [[4, 7, 9], [4, 8, 9]] ∧
+    (([[4, 7, 9], [4, 8, 9]] : List (List Nat)).map fun p =>
+      String.ofList (secRead (pathHits tIn p) 0 (translate (pathSeq tIn.toGraph p)) ++ endStar tIn p)) =
+      ["MUA*", "MUV*"] := by decide +kernel
+
+/-- … and the left-hand side: the paths of the returned graph from `pix 4` and their sequences -/
+example : ((translateGraph tIn).toOption.map fun pg =>
+      ((paths pg.toGraph (pix 4)), (paths pg.toGraph (pix 4)).map fun q => String.ofList (pathSeq pg.toGraph q))) =
+    some ([[6, 9, 11], [6, 10, 11]], ["MUA*", "MUV*"]) := by decide +kernel
+
+/-! non-vacuity of the fake stop: the transcript `ATGGCCAAACCCTAAGG` whose annotated CDS `[0, 6)` ends
+on `AAA` (not a stop codon), with the SNV `C→T` at 10 — a dump of the `G-translate-direct` stream.
+Node 4 = `ATGGCCAAA` holds the CDS end at codon 2: the real `translate` cuts it into `MA` and `K` and
+hangs a fake `*` on `MA`. -/
+/-- example input (not part of any statement) -/
+def tIn2 : TGraphIn :=
+  { nodes := #[
+      { seq := [], isNull := true, out := [(2, .reference), (1, .reference), (3, .reference)], rf := 3 },
+      { seq := [], isNull := true, out := [(4, .reference)], rf := 0 },
+      { seq := [], isNull := true, out := [(5, .reference)], rf := 1 },
+      { seq := [], isNull := true, out := [(6, .reference)], rf := 2 },
+      { seq := "ATGGCCAAA".toList, out := [(7, .reference), (8, .variantStart)], rf := 0,
+        locs := [{ qStart := 0, qEnd := 9, qRf := 0, rStart := 0, rEnd := 9 }] },
+      { seq := "TGGCCAAACCCTAAGG".toList, out := [], rf := 1,
+        locs := [{ qStart := 0, qEnd := 16, qRf := 1, rStart := 1, rEnd := 17 }] },
+      { seq := "GGCCAAACCCTAAGG".toList, out := [], rf := 2,
+        locs := [{ qStart := 0, qEnd := 15, qRf := 2, rStart := 2, rEnd := 17 }] },
+      { seq := "CCC".toList, out := [(9, .reference)], rf := 0,
+        locs := [{ qStart := 0, qEnd := 3, qRf := 0, rStart := 9, rEnd := 12 }] },
+      { seq := "CTC".toList, out := [(9, .variantEnd)], rf := 0,
+        vars := [{ ids := [0], start := 1, stop := 2 }],
+        locs := [{ qStart := 0, qEnd := 1, qRf := 0, rStart := 9, rEnd := 10 },
+                 { qStart := 2, qEnd := 3, qRf := 0, rStart := 11, rEnd := 12 }] },
+      { seq := "TAAGG".toList, out := [], rf := 0,
+        locs := [{ qStart := 0, qEnd := 5, qRf := 0, rStart := 12, rEnd := 17 }] }],
+    frames := [1, 2, 3], hasKnownOrf := true, orf := some (0, 6) }
+
+example : linearInput tIn2 = true ∧ noTerminal tIn2 = false := by decide +kernel
+
+/-- node 4 is cut at codon 2 (`IsTerminal tIn2 4 2`), the walk `[]` reaches it from itself -/
+example : IsTerminal tIn2 4 2 ∧ NWalk tIn2.toGraph 4 4 [] :=
+  ⟨⟨_, _, rfl, rfl, by rfl⟩, NWalk.here (by decide +kernel)⟩
+
+/-- the returned graph: node 6 = `MA` with successors 12 (`K`, which took over the successors
+9, 10) and 13 (the fake `*`); its language from `pix 4` = the two translations and the truncated
+protein `MA*` of clause (ii) -/
+example : ((translateGraph tIn2).toOption.map fun pg =>
+      ((pg.nodes.toList.map fun n => (String.ofList n.seq, n.out)),
+       (paths pg.toGraph (pix 4)).map fun q => String.ofList (pathSeq pg.toGraph q))) =
+    some ([("", [8, 7, 6]), ("*", []), ("", []), ("", []), ("", []), ("", []), ("MA", [12, 13]),
+           ("WPNPK", [1]), ("GQTLR", [1]), ("P", [11]), ("L", [11]), ("*", [1]), ("K", [9, 10]),
+           ("*", [])], ["MAKP*", "MAKL*", "MA*"]) := by decide +kernel
+
+example : (([[4, 7, 9], [4, 8, 9]] : List (List Nat)).map fun p => String.ofList (p.flatMap (protOf tIn2))) =
+      ["MAKP*", "MAKL*"] ∧
+    String.ofList (([] : List Nat).flatMap (protOf tIn2) ++ (protOf tIn2 4).take 2 ++ ['*']) = "MA*" := by
+  decide +kernel
+
+/-- an `Expand` instance: the Layer G graphs before and after the final loop of this example -/
+example : ((translateCore tIn2).toOption.map fun st => (st.terminal, (nodesGraph st.nodes).size)) =
+    some ([(6, 2)], 12) := by decide +kernel
+
+/-- `SecSorted` holds for node 4 of the first example (one location, one Sec record, frame 0),
+and the exact rule gives its single hit: codon 1 -/
+example : SecSorted 0 ((tIn.nodes[4]?.map (·.locs)).getD [] |>.map aaLoc) tIn.sect :=
+  ⟨by decide +kernel, by decide +kernel, by decide +kernel, by decide +kernel⟩
+
+example : (tIn.nodes[4]?.map (secHits tIn)) = some [1] := by decide +kernel
+
+/-! non-vacuity of `expand_language`: a one-node graph `AB` cut behind `A` -/
+/-- example graphs (not part of any statement): one node `AB`, cut behind `A` -/
+def exG : Graph := #[{ seq := ['A', 'B'], vars := [], out := [] }]
+def exG' : Graph := #[{ seq := ['A'], vars := [], out := [1, 2] }, { seq := ['B'], vars := [], out := [] },
+  { seq := ['*'], vars := [], out := [] }]
+
+example : Expand exG exG' 0 ['A'] ['B'] ['*'] := by
+  refine ⟨by decide, by decide, ?_, ?_, ?_, by decide, by decide, by decide, by decide, by decide,
+    by decide, by decide⟩
+  · intro i o ho
+    match i with
+    | 0 => simp [succs, exG] at ho
+    | k + 1 => simp [succs, exG] at ho
+  · intro i hi hne
+    have : i = 0 := by simp [exG] at hi; omega
+    exact absurd this hne
+  · intro i hi hne
+    have : i = 0 := by simp [exG] at hi; omega
+    exact absurd this hne
+
+example : Acc exG' 0 ['A', 'B'] ∧ Acc exG' 0 ['A', '*'] ∧ Reach exG 0 0 [] :=
+  ⟨Acc.step (by decide) (by decide : 1 ∈ succs exG' 0) (Acc.leaf (by decide) (by decide)),
+   Acc.step (by decide) (by decide : 2 ∈ succs exG' 0) (Acc.leaf (by decide) (by decide)),
+   Reach.here (by decide)⟩
+
+/-! non-vacuity of `translate_cp3_of_cp2(_frame)`: the first example without the Sec annotation
+(`sect = []`) IS the graph of the transcript `ATGTGAGCCTAAGG` with the SNV `C→T` at 7 (id 0): the
+DNA language of frame 0 from the frame root 1 is `tvgLang` (CP2's predicate), every node with a
+successor is whole codons, and the protein language of the returned graph is `protLang` (CP3's) -/
+/-- example input (not part of any statement) -/
+def tIn0 : TGraphIn := { tIn with sect := [] }
+def tTx : TxIn :=
+  { seq := "ATGTGAGCCTAAGG".toList, coding := true, orfStart := 0, orfEnd := 9,
+    startNF := false, endNF := false, sec := [] }
+def tSnv : Var := { start := 7, stop := 8, ref := ['C'], alt := ['T'], cls := .snv, ids := [0] }
+
+example : linearInput tIn0 = true ∧ noTerminal tIn0 = true ∧ innerCodons tIn0 = true ∧ tIn0.sect = [] ∧
+    tTx.sec = [] := by decide +kernel
+
+example : ((succs tIn0.toGraph 1).flatMap fun o => (paths tIn0.toGraph o).map fun p =>
+      String.ofList (pathSeq tIn0.toGraph p)) = ["ATGTGAGCCTAAGG", "ATGTGAGTCTAAGG"] ∧
+    ((tvgLang tTx [tSnv] 0).map fun x => String.ofList x.1) = ["ATGTGAGCCTAAGG", "ATGTGAGTCTAAGG"] := by
+  decide +kernel
+
+example : ((translateGraph tIn0).toOption.map fun pg =>
+      (paths pg.toGraph (pix 4)).map fun q => String.ofList (stripEnd (pathSeq pg.toGraph q))) =
+      some ["M*A", "M*V"] ∧
+    ((protLang tTx [tSnv] 0).map fun w => String.ofList (stripEnd w)) = ["M*A", "M*V"] := by
+  decide +kernel
+
+end TranslateNonVacuity
 
 end MoPepGen.Props.C01
